@@ -617,14 +617,24 @@ static int new_str_att(hid_t id, const char *name, const char *value,
 }
 
 /* ----------------------------------------------------------------- */
-static int get_str_att(hid_t id, const char *name, char *value, int *err)
+/* value has room for size characters, the terminating NUL included: the size
+   of the attribute is the file's business, not ours (H5Aread fills in what
+   the file says there is) */
+static int get_str_att(hid_t id, const char *name, char *value, size_t size,
+  int *err)
 {
 #ifdef ADFH_USE_STRINGS
   hid_t tid, att_id;
   herr_t status;
 
   ADFH_DEBUG((">ADFH get_str_att [%s]",name));
+  if (size > 0) value[0] = '\0';   /* several callers copy value whatever we return */
   if ((att_id = get_att_id(id, name, err)) < 0) return 1;
+  if (size == 0 || H5Aget_storage_size(att_id) > (hsize_t)size) {
+    H5Aclose(att_id);
+    set_error(ADFH_ERR_AREAD, err);
+    return 1;
+  }
 #if 0
   status = H5Aread(att_id, H5T_NATIVE_CHAR, value);
 #else
@@ -634,8 +644,15 @@ static int get_str_att(hid_t id, const char *name, char *value, int *err)
     set_error(ADFH_ERR_AGET_TYPE, err);
     return 1;
   }
+  if (H5Tget_size(tid) > size) {
+    H5Tclose(tid);
+    H5Aclose(att_id);
+    set_error(ADFH_ERR_AREAD, err);
+    return 1;
+  }
   status = H5Aread(att_id, tid, value);
   H5Tclose(tid);
+  value[size-1] = '\0';
 #endif
   H5Aclose(att_id);
   ADFH_DEBUG(("<ADFH get_str_att [%s][%s]",name,value));
@@ -651,9 +668,17 @@ static int get_str_att(hid_t id, const char *name, char *value, int *err)
   char buff[ADF_FILENAME_LENGTH+1];
 
   if ((att_id = get_att_id(id, name, err)) < 0) return 1;
+  if (H5Aget_storage_size(att_id) > (hsize_t)sizeof(buff) - 1 ||
+      H5Aget_storage_size(att_id) > (hsize_t)size) {
+    H5Aclose(att_id);
+    set_error(ADFH_ERR_AREAD, err);
+    return 1;
+  }
+  memset(buff, 0, sizeof(buff));
   status = H5Aread(att_id, H5T_NATIVE_CHAR, buff);
   H5Aclose(att_id);
-  strcpy(value, buff);
+  strncpy(value, buff, size - 1);
+  value[size-1] = '\0';
   if (status < 0) {
     set_error(ADFH_ERR_AREAD, err);
     return 1;
@@ -1158,7 +1183,7 @@ static hid_t open_link_1(hid_t id, int *err)
 #ifdef ADFH_DEBUG_ON
   H5O_info_t oinfo;/* debug purpose only */
   char buffname[ADF_NAME_LENGTH+1];
-  get_str_att(id, A_NAME, buffname, err);
+  get_str_att(id, A_NAME, buffname, sizeof(buffname), err);
 
   ADFH_DEBUG((">ADFH open_link [%s]",buffname));
 #endif
@@ -1234,7 +1259,7 @@ static int is_link(hid_t id)
   char type[3];
   int err;
 
-  if ((!get_str_att(id, A_TYPE, type, &err) && (0 == strcmp(ADFH_LK, type))))
+  if ((!get_str_att(id, A_TYPE, type, sizeof(type), &err) && (0 == strcmp(ADFH_LK, type))))
   {
     return 1;
   }
@@ -1484,7 +1509,7 @@ static herr_t fix_dimensions(hid_t id, const char *name, const H5L_info_t* linfo
   char type[ADF_DATA_TYPE_LENGTH+1];
 
   if (*name != D_PREFIX && (gid = H5Gopen2(id, name, H5P_DEFAULT)) >= 0 &&
-     !get_str_att(gid, A_TYPE, type, &err) && strcmp(type, ADFH_LK)) {
+     !get_str_att(gid, A_TYPE, type, sizeof(type), &err) && strcmp(type, ADFH_LK)) {
 #if ADFH_HDF5_HAVE_112_API
     H5Literate2(gid, H5_INDEX_CRT_ORDER, H5_ITER_NATIVE, NULL, fix_dimensions, NULL);
 #else
@@ -1622,7 +1647,7 @@ void ADFH_Move_Child(const double  pid,
 
   /* get node name */
 
-  if (get_str_att(hid, A_NAME, nodename, err)) return;
+  if (get_str_att(hid, A_NAME, nodename, sizeof(nodename), err)) return;
 
   /* the destination name is relative to the new parent: no need for the
      new parent's path, which H5Iget_name cannot always give for a group
@@ -1716,7 +1741,7 @@ void ADFH_Put_Name(const double  pid,
     set_error(DUPLICATE_CHILD_NAME, err);
     return;
   }
-  if (!get_str_att(hid, A_NAME, oname, err)) {
+  if (!get_str_att(hid, A_NAME, oname, sizeof(oname), err)) {
 #ifdef ADFH_DEBUG_ON
     printf("%s change [%s] to [%s]\n",ADFH_PREFIX,oname,nname);
 #endif
@@ -1745,7 +1770,7 @@ void ADFH_Get_Name(const double  id,
     set_error(NULL_STRING_POINTER, err);
     return;
   }
-  get_str_att(hid, A_NAME, buffname, err);
+  get_str_att(hid, A_NAME, buffname, sizeof(buffname), err);
   strcpy(name,buffname);
 
   ADFH_DEBUG(("<ADFH_Get_Name [%s]",name));
@@ -1769,7 +1794,7 @@ void ADFH_Get_Label(const double  id,
   }
   if ((hid = open_node(id, err)) >= 0)
   {
-    get_str_att(hid, A_LABEL, bufflabel, err);
+    get_str_att(hid, A_LABEL, bufflabel, sizeof(bufflabel), err);
     if (H5Gclose(hid)<0)
     {
       ADFH_DEBUG((">ADFH H5Gclose failed (G)"));
@@ -1896,9 +1921,9 @@ void ADFH_Delete(const double  pid,
   /* get name and order */
 
 #ifdef ADFH_NO_ORDER
-  if (get_str_att(hid, A_NAME, old_name, err)) return;
+  if (get_str_att(hid, A_NAME, old_name, sizeof(old_name), err)) return;
 #else
-  if (get_str_att(hid, A_NAME, old_name, err) ||
+  if (get_str_att(hid, A_NAME, old_name, sizeof(old_name), err) ||
       get_int_att(hid, A_ORDER, &old_order, err)) return;
 #endif
 
@@ -2869,7 +2894,7 @@ void ADFH_Get_Data_Type(const double  id,
   ADFH_DEBUG(("ADFH_Get_Data_Type"));
 
   if ((hid = open_node(id, err)) >= 0) {
-    get_str_att(hid, A_TYPE, buffdata_type, err);
+    get_str_att(hid, A_TYPE, buffdata_type, sizeof(buffdata_type), err);
     H5Gclose(hid);
     strcpy(data_type,buffdata_type);
   }
@@ -2888,7 +2913,7 @@ void ADFH_Get_Number_of_Dimensions(const double  id,
 
   *num_dims = 0;
   if ((hid = open_node(id, err)) < 0) return;
-  if (get_str_att(hid, A_TYPE, type, err) ||
+  if (get_str_att(hid, A_TYPE, type, sizeof(type), err) ||
     0 == strcmp(type, ADFH_MT) || 0 == strcmp(type, ADFH_LK)) {
     H5Gclose(hid);
     return;
